@@ -96,6 +96,19 @@ def lattice(ck):
                         selftest_done = True
                         if residue_of(z + 1.0) == want:
                             raise MachineryError("residue comparison is insensitive")
+    # number of independent solutions per layer kind: the spec's NSol (exported with every row) against find_num_solutions
+    from TidalPy.RadialSolver.solutions import find_num_solutions
+    nsol_spec = {}
+    for row in rows:
+        nsol_spec[row[2]] = row[10]
+    for kind, want in nsol_spec.items():
+        lt, st = CODE[kind]
+        for inc in (False, True):
+            for code in ((0,) if kind == "S" else (1, 2, 5)):
+                got = find_num_solutions(code, st, inc)
+                ck.case(("nsol", kind, inc, code), True)
+                if got != want:
+                    ck.violation({"clause": "num_solutions", "kind": kind}, "find_num_solutions(layer_type=%d, is_static=%s, is_incompressible=%s) = %d, spec NSol(%s) = %d" % (code, st, inc, got, kind, want), {})
     ck.notes["interface_lattice"] = {"rows": len(rows), "slot_comparisons": n_cmp}
     return n_cmp
 
